@@ -82,11 +82,15 @@ def check_program(col, pp, cfg, prog, queries=None, draw=None):
         if dest == ['#unknown']:
             try:
                 got = recipe.get_substance_used(world.real[q['sub']], q['timeframe'], q['unit'], [pp.Container('never declared')])
-                col.report('unknown-destination-accepted', {'got': got}, case)
+                outcome = ('accepted', got)
             except ValueError:
-                pass
+                outcome = None
             except Exception as e:  # noqa
-                col.report(f"unknown-destination/raised:{type(e).__name__}", {'exc': repr(e)[:120]}, case)
+                outcome = ('raised', e)
+            if outcome and outcome[0] == 'accepted':
+                col.report('unknown-destination-accepted', {'got': outcome[1]}, case)
+            elif outcome:
+                col.report(f"unknown-destination/raised:{type(outcome[1]).__name__}", {'exc': repr(outcome[1])[:120]}, case)
             continue
         dkeys = plate_keys if dest == 'plates' else dest
         exp = 0.0
